@@ -110,6 +110,10 @@ func parseCases(path string) ([]*CaseDesc, error) {
 			}
 			m := pKV(toks)
 			c.Note = undash(m["note"])
+			if sd, err := strconv.ParseInt(m["seed"], 10, 64); err == nil {
+				// (the seed also selects the route by which buildCollection nests the list)
+				c.Seed = sd
+			}
 			if m["shape"] != "" {
 				c.Shape = m["shape"]
 			}
